@@ -75,32 +75,89 @@ fn enumeral(input: Input<'_>) -> ParserResult<'_, EnumeralInput<'_>> {
     .parse(input)
 }
 
-fn enumerals<'a>(
-    start_index: usize,
-) -> impl Parser<Input<'a>, Output = Vec<Enumeral>, Error = ErrorTree<'a>> {
+/// Enumerals as written: the flag tells whether the number was given in the source.
+fn enumeration_items<'a>(
+) -> impl Parser<Input<'a>, Output = Vec<(Enumeral, bool)>, Error = ErrorTree<'a>> {
     fold_many0(
         enumeral,
-        Vec::<Enumeral>::new,
-        move |mut acc, (name, index, _, comments)| {
-            acc.push(Enumeral {
-                name: name.into(),
-                description: comments.map(|c| c.into()),
-                index: index.unwrap_or((acc.len() + start_index) as i128),
-            });
+        Vec::<(Enumeral, bool)>::new,
+        |mut acc, (name, index, _, comments)| {
+            acc.push((
+                Enumeral {
+                    name: name.into(),
+                    description: comments.map(|c| c.into()),
+                    index: index.unwrap_or_default(),
+                },
+                index.is_some(),
+            ));
             acc
         },
     )
 }
 
+/// X.680 §20.3: identifier-only root enumerals get successive integers from 0,
+/// excluding the numbers used by the NamedNumbers of the root.
+fn number_root_enumerals(items: Vec<(Enumeral, bool)>) -> Vec<Enumeral> {
+    let used: Vec<i128> = items
+        .iter()
+        .filter(|(_, explicit)| *explicit)
+        .map(|(e, _)| e.index)
+        .collect();
+    let mut next: i128 = 0;
+    items
+        .into_iter()
+        .map(|(mut e, explicit)| {
+            if !explicit {
+                while used.contains(&next) && next < i128::MAX {
+                    next += 1;
+                }
+                e.index = next;
+                next = next.saturating_add(1);
+            }
+            e
+        })
+        .collect()
+}
+
+/// X.680 §20.6: an identifier-only addition gets the smallest value that is not used in the
+/// root and is greater than all preceding additions.
+fn number_additional_enumerals(root: &[Enumeral], items: Vec<(Enumeral, bool)>) -> Vec<Enumeral> {
+    let mut next: i128 = 0;
+    items
+        .into_iter()
+        .map(|(mut e, explicit)| {
+            if !explicit {
+                while root.iter().any(|r| r.index == next) && next < i128::MAX {
+                    next += 1;
+                }
+                e.index = next;
+            }
+            next = next.max(e.index.saturating_add(1));
+            e
+        })
+        .collect()
+}
+
+#[cfg(test)]
+fn enumerals<'a>(
+    _start_index: usize,
+) -> impl Parser<Input<'a>, Output = Vec<Enumeral>, Error = ErrorTree<'a>> {
+    map(enumeration_items(), number_root_enumerals)
+}
+
 fn enumerated_body(input: Input<'_>) -> ParserResult<'_, EnumeralBody> {
     in_braces(|input| {
-        let (input, root_enumerals) = enumerals(0).parse(input)?;
+        let (input, root_enumerals) =
+            map(enumeration_items(), number_root_enumerals).parse(input)?;
         let (input, ext_marker) = opt(terminated(
             extension_marker,
             skip_ws_and_comments(opt(char(COMMA))),
         ))
         .parse(input)?;
-        let (input, ext_enumerals) = opt(enumerals(root_enumerals.len())).parse(input)?;
+        let (input, ext_enumerals) = opt(map(enumeration_items(), |items| {
+            number_additional_enumerals(&root_enumerals, items)
+        }))
+        .parse(input)?;
         Ok((input, (root_enumerals, ext_marker, ext_enumerals)))
     })
     .parse(input)
